@@ -60,7 +60,7 @@ def twin(ctx, r, wd):
 
 def run(ctx):
     styles = ["fresh", "n1", "n2", "n3", "n5", "n14"]
-    runs = C.explore(ctx, ctx.n(500, 8000), 12, styles, p_invalid=0.55, hole=True)
+    runs = C.explore(ctx, ctx.n(500, 8000), 12, styles, p_invalid=0.55, hole=True, reuse=False)   # (the twin run needs blocks that do not depend on which earlier calls ran)
     wd = tempfile.mkdtemp(prefix="vtdf")
     try:
         for r in runs:
